@@ -1,7 +1,7 @@
 """C10 - every residue-graph edge is realised by a bond or reported as missing."""
 import hypothesis.strategies as st
 
-from . import gp, gpcheck
+from . import gp, gpcheck, model as mdl
 from .core import Violation
 
 PID = "C10"
@@ -35,6 +35,10 @@ def check(spec, ctx):
     if spec.get("half") == "gen_coords":
         from . import c10coords
         return c10coords.check(spec, ctx)
+    pre = mdl.expected(spec)
+    if pre.invalid:
+        from .core import Reject
+        raise Reject(pre.invalid)
     run, written = gpcheck.execute(spec, ctx, clause="gen_params")
     molecule = run.captured["molecule"]
     resid_of = {node: molecule.nodes[node]["resid"] for node in molecule.nodes}
